@@ -1,21 +1,28 @@
 /-
-C18 — everything a session emits stays decodable by a conformant peer, at any uptime.
-STATUS.  Proved here for both session models: the droppable mark is set ONLY on media the application
-asked to be droppable — every packet returned by `handle_input` (whatever bytes arrive) and by every
-non-media call is not droppable, and a media call's packet carries exactly the caller's flag; the
-session clock is `uptime mod 2^32` for every uptime (the model takes the uptime as an arbitrary natural
-number, so 2^24 and 2^32 are not special).  Known finding K2 is machine-checked: `C18_K2_counterexample`.
-NOT yet a theorem: that the returned packets with any droppable subset removed are read by the
-specification reader as the messages handed to the serializer (this is Thm A of DESIGN.md §4 applied
-to the session's message sequence); it is covered by the `!sess.decodable` oracle (strict
-specification reader on everything a real session returned, random drop subsets, expected message
-streams, well-formed bodies) and by `!sess.uptime` runs with the REAL clock arithmetic shifted to
-uptimes around 2^24, 2^32 and beyond (hook H2).
+C18 — everything a session emits stays decodable by a conformant peer, at any uptime.   STATUS: proved
+for both session models, for histories in which no call failed after it had already handed a message
+to its serializer (that exception is known finding K2, machine-checked below: `C18_K2_counterexample`).
+
+`C18_server_stream`, `C18_client_stream`: for EVERY session configuration, EVERY history of inputs
+(any bytes, any partition) and application calls (accept / reject / media with either flag / metadata /
+ping / finish; connect / play / publish / stop / ping / metadata / media), at ANY uptimes (the model
+takes the uptime as an arbitrary natural number: 2^24 and 2^32 are not special; `C18_clock`), and
+EVERY subset of the packets returned marked droppable removed: the remaining packets, concatenated in
+the order returned, are read by the specification reader (Rml/Spec/Chunk.lean) — and decoded by the
+deserializer model without error — into exactly the messages the session serialized, each of which is
+the payload of a well-formed RTMP message (or the session's chunk-size announcement, made through the
+serializer's setter before the new size is used).  Proof: every session function is walked and shown
+to hand its serializer a well-formed history in the order of the packets it returns
+(Lemmas/SrvEmit.lean, CliEmit.lean: `Em`, invariant `Inv`), then Thm A and Thm B.
+Droppable marks: set ONLY on media the application asked to be droppable (`C18_server_input_not_droppable`,
+`C18_server_calls`, `C18_client_calls`).
 -/
 import Rml.Model.ServerSession
 import Rml.Model.ClientSession
 import Rml.Spec.Chunk
 import Rml.Props.C08
+import Rml.Lemmas.SrvEmit
+import Rml.Lemmas.CliEmit
 namespace Rml.C18
 open Rml Rml.Chunk Rml.Amf0 Rml.Msgs Rml.Sess
 
@@ -291,6 +298,49 @@ theorem C18_client_calls (s : Cli.State) (video : Bool) (data : Bytes) (ts now :
 /-- the session clock at ANY uptime (no bound: beyond 2^24 ms, beyond 2^32 ms) is the uptime modulo 2^32 -/
 theorem C18_clock (uptimeMs : Nat) : epoch uptimeMs = uptimeMs % 2 ^ 32 ∧ epoch uptimeMs < 2 ^ 32 :=
   ⟨rfl, Nat.mod_lt _ (by decide)⟩
+
+open Rml.SerHist in
+/-- **C18, server.**  Everything a server session returned — from its construction on, over any history
+    of inputs and calls with 32-bit arguments in which no failed call had already used the serializer
+    (K2) — with any subset of the droppable packets removed, is a chunk stream the specification
+    reader and the deserializer model decode into exactly the messages that were serialized. -/
+theorem C18_server_stream (c : Srv.Config) (now : Nat) (s0 : Srv.State) (rs0 : List Srv.Res)
+    (ops : List SrvEmit.Op) (hnew : Srv.new c now = .ok (s0, rs0)) (hw : ∀ op ∈ ops, op.WF)
+    (hk : SrvEmit.ErrKeepsSer s0 ops) (mask : List Bool) :
+    ∃ xs : List (Ser.Packet × Msg),
+      xs.map (·.1) = SrvEmit.outs (rs0 ++ (SrvEmit.run s0 ops).2) ∧
+      Spec.Chunk.decodeSeq (wire (keepSel mask xs)) = some (msgs (keepSel mask xs)) ∧
+      (Des.feed {} (wire (keepSel mask xs))).msgs = msgs (keepSel mask xs) ∧
+      (Des.feed {} (wire (keepSel mask xs))).err = none := by
+  obtain ⟨x0, e0, m0, hinv⟩ := SrvEmit.new_emits hnew
+  obtain ⟨⟨x1, e1, m1, _⟩, _⟩ := SrvEmit.run_step ops s0 hinv hw hk
+  refine ⟨x0 ++ x1, ?_, ?_⟩
+  · simp only [List.map_append, m0, m1, SrvEmit.outs, List.filterMap_append]
+  · have h := Emit.Emits.reads (e0.trans e1) mask
+    obtain ⟨h1, h2, _⟩ := C06.C06_decodes_legal _ _ h
+    exact ⟨h, h1, h2⟩
+
+open Rml.SerHist in
+/-- **C18, client.**  The same for a client session (which returns nothing at construction). -/
+theorem C18_client_stream (cfg : Cli.Config) (ops : List CliEmit.Op) (hw : ∀ op ∈ ops, op.WF)
+    (hk : CliEmit.ErrKeepsSer { cfg := cfg } ops) (mask : List Bool) :
+    ∃ xs : List (Ser.Packet × Msg),
+      xs.map (·.1) = CliEmit.outs (CliEmit.run { cfg := cfg } ops).2 ∧
+      Spec.Chunk.decodeSeq (wire (keepSel mask xs)) = some (msgs (keepSel mask xs)) ∧
+      (Des.feed {} (wire (keepSel mask xs))).msgs = msgs (keepSel mask xs) ∧
+      (Des.feed {} (wire (keepSel mask xs))).err = none ∧
+      ∀ x ∈ xs, Emit.FromRtmp x.2 ∨ (x.2.typ = 1 ∧ x.2.msid = 0) := by
+  obtain ⟨⟨x1, e1, m1, g1⟩, _⟩ := CliEmit.run_step ops { cfg := cfg } (CliEmit.inv_fresh cfg) hw hk
+  refine ⟨x1, m1, ?_⟩
+  have h := Emit.Emits.reads e1 mask
+  obtain ⟨h1, h2, _⟩ := C06.C06_decodes_legal _ _ h
+  exact ⟨h, h1, h2, g1⟩
+
+/-- the K2 hypothesis is not vacuous and is what ordinary histories satisfy: a call that is refused
+    before it touches the serializer (an unknown request id) keeps it -/
+example (s : Srv.State) (now : Nat) (h : mapGet 7 s.reqs = none) :
+    SrvEmit.ErrKeepsSer s [.accept now 7] := by
+  simp [SrvEmit.ErrKeepsSer, SrvEmit.apply, Srv.acceptRequest, h]
 
 end Rml.C18
 
